@@ -113,7 +113,7 @@ func (engine) Shrink(ci any, stillFails func(any) bool) any {
 				if try(func(c *Case) bool {
 					g := &c.Forest[gi]
 					g.Nodes = append(append([]Node{}, g.Nodes[:ni]...), g.Nodes[ni+1:]...)
-					if g.Chain && chainOrder(*g) == nil {
+					if g.Chain && chainShape(*g) == "" {
 						return false
 					}
 					heads := 0
